@@ -5,17 +5,9 @@
    Executable definitions only, polymorphic over the carrier; proofs are in
    C15/Proofs.v, statements in C15/Props.v. *)
 From Coq Require Import ZArith QArith List Bool.
-From Verif Require Import Base.Num Base.Vec.
+From Verif Require Import Base.Num Base.Vec C15.Syntax Gen.InterpWeights.
 Import ListNotations.
 Local Open Scope num_scope.
-
-Inductive scheme := SNearest | SLinear.
-
-(* per-axis data produced by the weight/edge helpers for ONE evaluation
-   coordinate: the two node indices that are read (NumPy indices, -1 = last)
-   and the weights they get *)
-Record axdat (T : Type) := mkax { e_lo : Z; e_hi : Z; w_lo : T; w_hi : T }.
-Arguments mkax {T}. Arguments e_lo {T}. Arguments e_hi {T}. Arguments w_lo {T}. Arguments w_hi {T}.
 
 Section Model.
 Context {T : Type} `{Num T}.
@@ -30,42 +22,25 @@ Fixpoint ssleft (c : list T) (x : T) : nat :=
   | a :: c' => if a <? x then S (ssleft c' x) else O
   end.
 
-(* idcs = searchsorted - 1;  idcs[idcs < 0] = 0;  idcs[idcs > n-2] = n-2 *)
+(* idcs = searchsorted - 1;  idcs[idcs < 0] = 0;  idcs[idcs > n-2] = n-2
+   -- the clamping is REGENERATED from _find_indices (Gen.InterpWeights.gen_cell_index) *)
 Definition cell_index (c : list T) (x : T) : Z :=
-  let n := Z.of_nat (length c) in
-  let i0 := (Z.of_nat (ssleft c x) - 1)%Z in
-  let i1 := if (i0 <? 0)%Z then 0%Z else i0 in
-  if (n - 2 <? i1)%Z then (n - 2)%Z else i1.
+  gen_cell_index (Z.of_nat (ssleft c x)) (Z.of_nat (length c)).
 
 (* NumPy subscript: negative indices count from the end *)
 Definition wrap (n : nat) (i : Z) : nat :=
   Z.to_nat (if (i <? 0)%Z then (i + Z.of_nat n)%Z else i).
 Definition pyget (c : list T) (i : Z) : T := nth (wrap (length c) i) c nzero.
 
-(* (xi - cvec[idcs]) / (cvec[idcs + 1] - cvec[idcs]) *)
+(* (xi - cvec[idcs]) / (cvec[idcs + 1] - cvec[idcs])  (regenerated: gen_norm_dist) *)
 Definition norm_dist (c : list T) (x : T) : T :=
   let i := cell_index c x in
-  (x - pyget c i) / (pyget c (i + 1) - pyget c i).
+  gen_norm_dist x (pyget c i) (pyget c (i + 1)).
 
-Definition nhalf' : T := of_Z 1 / of_Z 2.
-
-(* ---- _compute_nearest_weights_edge / _compute_linear_weights_edge ---- *)
-Definition weights_edge (s : scheme) (i : Z) (y : T) : axdat T :=
-  let lo := y <? nzero in
-  let hi := none_ <? y in
-  let elo := if hi then (-1)%Z else i in            (* edge[0][hi] = -1 *)
-  let ehi := if lo then 0%Z else (i + 1)%Z in       (* edge[1][lo] = 0  *)
-  match s with
-  | SNearest =>
-      let near := y <? nhalf' in
-      mkax elo ehi
-        (if lo then nzero else if hi then none_ else if near then none_ else nzero)
-        (if lo then none_ else if hi then nzero else if near then nzero else none_)
-  | SLinear =>
-      mkax elo ehi
-        (if lo then nzero else if hi then (none_ - y) + none_ else none_ - y)
-        (if lo then y + none_ else if hi then nzero else y)
-  end.
+(* _compute_nearest_weights_edge / _compute_linear_weights_edge and the dispatch in
+   _create_weight_edge_lists are REGENERATED from the source on every run
+   (Gen.InterpWeights.gen_weights_edge, by translate/interp_weights.py) *)
+Definition weights_edge (s : scheme) (i : Z) (y : T) : axdat T := gen_weights_edge s i y.
 
 (* An axis with a single node: cvec[idcs+1] - cvec[idcs] = 0, the normalised
    distance is 0/0 or +-x/0 (nan / inf).  'nearest' still reads node 0 with
@@ -98,7 +73,7 @@ Definition corner_sum (v : list Z -> T) (axd : list (axdat T)) : T :=
 Definition nearest_index (c : list T) (x : T) : Z :=
   match c with
   | [_] => 0%Z
-  | _ => let i := cell_index c x in if norm_dist c x <? nhalf' then i else (i + 1)%Z
+  | _ => gen_nearest_pick (cell_index c x) (norm_dist c x)     (* regenerated: np.where(yi < .5, i, i + 1) *)
   end.
 
 Fixpoint map2 {A B C} (f : A -> B -> C) (l : list A) (m : list B) : list C :=
